@@ -27,6 +27,12 @@ def items(tier, seed):
             out.append(("airborne-st%d-%s" % (st, "src" if src else "nosrc"), {"st": st, "source": src}))
     out += [("airborne-guard", {}), ("altitude_diff", {}), ("surface", {"source": False}), ("surface-src", {"source": True}),
             ("velocity-route", {}), ("speed_heading", {})]
+    # history mode (harness.decide): the same call on an earlier frame of another subtype / movement code first
+    out += [("airborne-st2-src@after:ST", {"st": 2, "source": True}),
+            ("airborne-st3-nosrc@after:ST+V1", {"st": 3, "source": False}), ("surface@after:MOV", {"source": False}),
+            ("altitude_diff@after:DALT", {})]
+    if tier == "thorough":      # 4-5 min each
+        out += [("airborne-st1-nosrc@after:ST", {"st": 1, "source": False}), ("speed_heading@after:TC", {})]
     return out
 
 
